@@ -641,6 +641,23 @@ func (c *Conn) Sent() []byte {
 	return append([]byte(nil), c.sent...)
 }
 
+// NEvents / EventsFrom: the number of events logged so far, and a copy of those from index n on (long
+// lock-step histories look at what each step added, not at the whole log).
+func (c *Conn) NEvents() int {
+	c.mu.Lock()
+	defer c.mu.Unlock()
+	return len(c.events)
+}
+
+func (c *Conn) EventsFrom(n int) []Event {
+	c.mu.Lock()
+	defer c.mu.Unlock()
+	if n > len(c.events) {
+		n = len(c.events)
+	}
+	return append([]Event(nil), c.events[n:]...)
+}
+
 func (c *Conn) Events() []Event {
 	c.mu.Lock()
 	defer c.mu.Unlock()
